@@ -182,7 +182,19 @@ func (e *Exec) exec(s *State, b *ssa.BasicBlock, from int, prev *ssa.BasicBlock)
 	env := s.top().Env
 	if from == 0 {
 		s.Visits[b]++
+		pcKey := fmt.Sprintf("pc@%p", b)
+		if s.Visits[b] == 1 {
+			s.Ghost[pcKey] = mkInt(int64(len(s.PC)))
+		}
 		if s.Visits[b] > maxBlockVisits {
+			// A loop that went round that often without a single symbolic decision
+			// runs on the scenario's concrete data alone: it does not terminate within
+			// the bound on this scenario (a bounded termination obligation, C18).
+			if n0, ok := s.Ghost[pcKey].(*T); ok {
+				if v, isC := n0.intVal(); isC && int(v) == len(s.PC) {
+					panic(execPanic{fmt.Sprintf("non-termination: the loop at block %d of %s ran %d times on the scenario's concrete data without finishing", b.Index, b.Parent().Name(), maxBlockVisits)})
+				}
+			}
 			unsupported("loop needs invariant: block %d of %s visited more than %d times on one path", b.Index, b.Parent().Name(), maxBlockVisits)
 		}
 		newv := map[ssa.Value]Val{}
